@@ -96,7 +96,7 @@ pub fn expand(row: &Value, index: usize, seed: u64, thorough: bool) -> Vec<Value
             2 => vec![1, 2, 3],
             _ => vec![r.range(4, 100), 8192],
         };
-        out.push(json!({"id":format!("{}/{}", gs(row,"id"), v),"ct":ct,"ctv":ctv,"label":label,"req":gb(row,"req"),"sess":gb(row,"sess"),"op":gs(row,"op"),
+        out.push(json!({"id":format!("{}/{}", gs(row,"id"), v),"ct":ct,"ctv":ctv,"label":label,"req":gs(row,"req"),"sess":gb(row,"sess"),"op":gs(row,"op"),
             "reqdef":b,"sessdef":c,"explicit":x,"body_hex":hex(&body),"segs":segs,"reader_bufs":bufs,"chunked":v % 3 == 0}));
     }
     out
@@ -142,8 +142,10 @@ pub fn run(sc: &Value) -> Vec<String> {
                 s.default_charset(Some(sessdef));
             }
             let mut b = s.get("http://h.test/t");
-            if gb(sc, "req") {
-                b = b.default_charset(Some(reqdef));
+            match gs(sc, "req") {
+                "some" => b = b.default_charset(Some(reqdef)),
+                "none" => b = b.default_charset(None),
+                _ => {}
             }
             let rp = b.send().map_err(|e| err_kind(&e))?;
             match op {
@@ -177,7 +179,7 @@ pub fn run(sc: &Value) -> Vec<String> {
     // the same body delivered in one piece, read with the one-shot API: "decoding the whole body at once"
     let whole_op = if op == "text_reader" { "text" } else { op.as_str() };
     let whole = do_run(vec![], whole_op);
-    let mut ev = json!({"ev":"charset","id":gs(sc,"id"),"ct":gs(sc,"ct"),"req":gb(sc,"req"),"sess":gb(sc,"sess"),"op":op,
+    let mut ev = json!({"ev":"charset","id":gs(sc,"id"),"ct":gs(sc,"ct"),"req":gs(sc,"req"),"sess":gb(sc,"sess"),"op":op,
         "res":"err","agree":[],"streamingSame":false,"kind":"","label":gs(sc,"label"),"bodyLen":body.len(),"choiceChecked":!gb(sc,"bom_half")});
     match got {
         Ok(Ok(text)) => {
@@ -245,11 +247,30 @@ pub fn generate(seed: u64, tier: &str) -> Vec<Value> {
                     if !thorough && (cut + bi) % 2 == 1 {
                         continue;
                     }
-                    out.push(json!({"id":format!("cs-{}", id),"ct":"charset","ctv":format!("text/plain; charset={}", e),"label":e,"req":false,"sess":false,
+                    out.push(json!({"id":format!("cs-{}", id),"ct":"charset","ctv":format!("text/plain; charset={}", e),"label":e,"req":"unset","sess":false,
                         "op":"text_reader","reqdef":"UTF-8","sessdef":"UTF-8","explicit":"UTF-8","body_hex":hex(&body),"segs":[head + cut],
                         "reader_bufs":bufs,"chunked":false,"bom_half":true}));
                     id += 1;
                 }
+            }
+        }
+    }
+    // bodies ending inside a multi-byte sequence or an escape sequence, read through every API with short buffers
+    let tails: Vec<(&str, Vec<u8>)> = vec![
+        ("ISO-2022-JP", vec![0x1b, b'$']), ("ISO-2022-JP", vec![0x1b, b'(']), ("ISO-2022-JP", vec![0x1b]), ("ISO-2022-JP", vec![0x1b, b'$', b'B', 0x30]),
+        ("Shift_JIS", vec![0x81]), ("GBK", vec![0x81]), ("gb18030", vec![0x81, 0x30, 0x81]), ("EUC-KR", vec![0xb0]), ("Big5", vec![0xa4]),
+        ("UTF-8", vec![0xe2, 0x82]), ("UTF-8", vec![0xf0, 0x9f, 0x98]), ("UTF-16LE", vec![0x41]), ("UTF-16BE", vec![0xd8, 0x00]), ("EUC-JP", vec![0x8f, 0xb0]),
+    ];
+    for (e, tail) in tails {
+        let plens: Vec<usize> = if thorough { (0..72).collect() } else { (0..72).step_by(2).collect() };
+        for plen in plens {
+            let mut body: Vec<u8> = if e.starts_with("UTF-16") { (0..plen / 2).flat_map(|_| if e == "UTF-16LE" { [b'p', 0] } else { [0, b'p'] }).collect() } else { vec![b'p'; plen] };
+            body.extend_from_slice(&tail);
+            for (op, bufs) in [("text", vec![4096usize]), ("text_reader", vec![1]), ("text_reader", vec![2, 3]), ("text_reader", vec![4]), ("text_reader", vec![5]), ("text_reader", vec![7, 31])] {
+                out.push(json!({"id":format!("cs-{}", id),"ct":"charset","ctv":format!("text/plain; charset={}", e),"label":e,"req":"unset","sess":false,
+                    "op":op,"reqdef":"UTF-8","sessdef":"UTF-8","explicit":"UTF-8","body_hex":hex(&body),"segs":[],
+                    "reader_bufs":bufs,"chunked":plen % 2 == 1,"bom_half":false}));
+                id += 1;
             }
         }
     }
